@@ -208,7 +208,8 @@ theorem leaf_fixed_outputs_hook (os : List (Output AddrLeaf.VAddr Item WScript))
 
 theorem leaf_fixed_PoolRegistration (p : Pool.PoolParams) (h : Pool.paramsOk p = true) :
     ∃ i, Pool.encRegistration p = some i ∧ ∀ f, realLeaves "PoolRegistration" = some f → f i = .ok i := by
-  obtain ⟨i, h1, h2⟩ := C01.Pool.registration_roundtrip_partial p h
+  obtain ⟨hc, ht⟩ := (C01.Pool.params_ok_iff p).mp h
+  obtain ⟨i, h1, h2⟩ := C01.Pool.registration_roundtrip p hc ht
   refine ⟨i, h1, fun f hf => ?_⟩
   have e : realLeaves "PoolRegistration" = some poolRegNorm := rfl
   rw [e] at hf; cases hf
